@@ -208,3 +208,20 @@ def identity_valid(op, a, b, r):
     if listed and cex is not None:
         raise AssertionError(f"reference table lists an identity refuted by witness {cex}: {op}({a},{b}) = {r}")
     return listed, cex
+
+
+# ---------------------------------------------------------------------------------------------------------------
+# Static gas classes of the Yellow Paper (appendix G/H, Berlin/London/Shanghai values) for the opcodes whose price does not
+# depend on run-time state.  Only used as "must be priced > 0 and in this class"; dynamic parts (memory expansion, cold/warm,
+# SSTORE refunds, LOG data, EXP exponent bytes, copy lengths) are outside this table.
+GAS_CLASS = {
+    "zero": ("STOP", "RETURN", "REVERT"),
+    "base": ("ADDRESS", "ORIGIN", "CALLER", "CALLVALUE", "CALLDATASIZE", "CODESIZE", "GASPRICE", "COINBASE", "TIMESTAMP", "NUMBER",
+             "DIFFICULTY", "PREVRANDAO", "GASLIMIT", "CHAINID", "RETURNDATASIZE", "POP", "PC", "MSIZE", "GAS", "BASEFEE", "PUSH0"),
+    "verylow": ("ADD", "SUB", "NOT", "LT", "GT", "SLT", "SGT", "EQ", "ISZERO", "AND", "OR", "XOR", "BYTE", "SHL", "SHR", "SAR",
+                "CALLDATALOAD", "MLOAD", "MSTORE", "MSTORE8", "PUSH", "DUP3", "SWAP2"),
+    "low": ("MUL", "DIV", "SDIV", "MOD", "SMOD", "SIGNEXTEND", "SELFBALANCE"),
+    "mid": ("ADDMOD", "MULMOD", "JUMP"),
+    "high": ("JUMPI",),
+}
+GAS_VALUE = {"zero": 0, "base": 2, "verylow": 3, "low": 5, "mid": 8, "high": 10}
